@@ -293,7 +293,25 @@ class Spec:
             for g_, t_ in st_q.ghost.items():
                 if g_ not in st.ghost:
                     st.ghost[g_] = t_
-            q = z3.ForAll(bound, body) if k == 'forall' else z3.Exists(bound, body)
+            # array definitions introduced by nested quantifiers (variable free) belong to the enclosing state
+            for a_ in st_q.pc[len(st.pc):]:
+                if z3.is_eq(a_) and z3.is_const(a_.arg(0)) and a_.arg(0).decl().name().startswith('arr!'):
+                    st.pc.append(a_)
+                    if getattr(st, 'arrdefs', None) is None:
+                        st.arrdefs = set()
+            if k == 'forall':
+                body = self.name_arrays(ex, bound, body, st)
+            pats = self.auto_patterns(bound, body) if k == 'forall' else []
+            q = None
+            if pats:
+                try:
+                    q = z3.ForAll(bound, body, patterns=pats)
+                except z3.Z3Exception:
+                    q = None
+            if q is not None:
+                pass
+            else:
+                q = z3.ForAll(bound, body) if k == 'forall' else z3.Exists(bound, body)
             return V('bool', q)
         if k == 'un':
             a = self.eval(ex, e[2], env, st, old)
@@ -393,6 +411,123 @@ class Spec:
                         ptr = ex.load(st, ft, p.ext(i))
                         return self.field_place(ex, ptr.x, ptt['elem'], name, st)
         return None
+
+    def name_arrays(self, ex, bound, body, st):
+        """Give a name to every compound, variable-free array term that is indexed inside a quantified formula
+        (`A[...x...]` with A = Store/If/...): triggers must not contain `if`, and short names make matching cheap.  The
+        defining equation is added to the path condition (a conservative extension)."""
+        ids = set(b.get_id() for b in bound)
+        has = {}
+
+        def hv(t):
+            i = t.get_id()
+            if i in has:
+                return has[i]
+            r = i in ids or any(hv(c) for c in t.children())
+            has[i] = r
+            return r
+        table = getattr(ex, 'array_names', None)
+        if table is None:
+            table = ex.array_names = {}
+        subs = []
+        seen = set()
+
+        def walk(t):
+            i = t.get_id()
+            if i in seen or z3.is_quantifier(t):
+                return
+            seen.add(i)
+            for c in t.children():
+                walk(c)
+            if z3.is_app(t) and t.decl().kind() == z3.Z3_OP_SELECT:
+                a = t.arg(0)
+                if z3.is_array(a) and not hv(a) and not (z3.is_const(a) and a.decl().kind() == z3.Z3_OP_UNINTERPRETED):
+                    k2 = a.get_id()
+                    if k2 not in table:
+                        nm = z3.Const('arr!%d' % (len(table) + 1), a.sort())
+                        table[k2] = (nm, a)
+                    nm, orig = table[k2]
+                    subs.append((a, nm))
+                    dk = ('arrdef', k2)
+                    defs = getattr(st, 'arrdefs', None)
+                    if defs is None:
+                        defs = st.arrdefs = set()
+                    if k2 not in defs:
+                        defs.add(k2)
+                        st.pc.append(nm == orig)
+        try:
+            walk(body)
+        except z3.Z3Exception:
+            return body
+        if not subs:
+            return body
+        return z3.substitute(body, *subs)
+
+    def auto_patterns(self, bound, body):
+        """Triggers for a universally quantified spec formula: the smallest select terms (memory or ghost arrays) that
+        mention bound variables; combined into one multi-pattern covering all variables when no single term does."""
+        ids = {b.get_id(): i for i, b in enumerate(bound)}
+        cands = []
+        seen = set()
+
+        vcache = {}
+
+        def vset(t):
+            i = t.get_id()
+            if i in vcache:
+                return vcache[i]
+            r = frozenset([ids[i]]) if i in ids else frozenset()
+            for c in t.children():
+                r = r | vset(c)
+            vcache[i] = r
+            return r
+
+        def vars_of(t, acc, depth=0):
+            acc.update(vset(t))
+
+        def walk(t):
+            if t.get_id() in seen:
+                return
+            seen.add(t.get_id())
+            if z3.is_quantifier(t):
+                return
+            for c in t.children():
+                walk(c)
+            if z3.is_app(t) and t.decl().kind() == z3.Z3_OP_SELECT:
+                vs = set()
+                vars_of(t.arg(1), vs)
+                avs = set()
+                vars_of(t.arg(0), avs)
+                if vs and not (avs - vs):
+                    cands.append((len(str(t)), t, frozenset(vs | avs)))
+        try:
+            walk(body)
+        except Exception:
+            return []
+        if not cands:
+            return []
+        cands.sort(key=lambda c: c[0])
+        allv = frozenset(range(len(bound)))
+        pats = []
+        # single terms covering everything
+        for sz, t, vs in cands:
+            if vs == allv:
+                pats.append(t)
+                if len(pats) >= 3:
+                    break
+        if pats:
+            return pats
+        # greedy multi-pattern
+        chosen, covered = [], set()
+        for sz, t, vs in cands:
+            if not vs <= covered:
+                chosen.append(t)
+                covered |= vs
+            if covered == set(allv):
+                break
+        if covered == set(allv):
+            return [z3.MultiPattern(*chosen)] if len(chosen) > 1 else chosen
+        return []
 
     def eval_id(self, ex, name, env, st, old):
         if name in env:
@@ -840,6 +975,12 @@ class Spec:
             # typed(T, literal)
             t = self.resolve_type(ex, self.typearg(args[0]))
             return self.lit_as(ex, ev(args[1]), ex.zero(t))
+        if fn == 'allocated':
+            # p refers to an object that exists in this state (not one the current path allocates later)
+            x = ev(args[0])
+            if isinstance(x.x, PAddr) and x.x.cid is not None:
+                return V('bool', z3.BoolVal(x.x.cid >= -st.nalloc))
+            return V('bool', Addr.aid(ex.term(x)) >= -st.nalloc)
         if fn == 'fresh':
             x = ev(args[0])
             if isinstance(x.x, PAddr) and x.x.cid is not None:
@@ -939,6 +1080,9 @@ class Spec:
             ex.oblige(st, '%s/%s/pre.%s.%s@%s' % (ex.tagstr(c), ex.short_fn(), callee, c.label or 'r%d' % c.ordinal, site), g,
                       tags=c.tags, where='%s:%d' % (c.file, c.line), kind='pre')
             st.pc.append(g)
+        for a_ in args:
+            if isinstance(a_, V) and isinstance(a_.x, PAddr) and a_.x.cid is not None and a_.x.cid < 0:
+                ex.note_escape(st, a_.x.term() if not a_.x.path else PAddr(cid=a_.x.cid).term())
         self.on_contract_call(ex, fr, ins, con, name, args, st)
         self.call_effects(ex, fr, ins, con, name, env, st)
         old = st.copy()
@@ -1125,6 +1269,12 @@ class Spec:
     BUCKET_WORDS = {('bucket', 'next'), ('bucket', 'keys'), ('bucket', 'values'), ('bucket', 'topHashMutex'),
                     ('bucketOf', 'meta'), ('bucketOf', 'entries'), ('bucketOf', 'next')}
     COUNTER = {('counterStripe', 'c')}
+
+    def chain_root(self, ex, st, t, ridx, kind):
+        """Address term of the root bucket number ridx of table t (t.buckets is field 0 of both table structs)."""
+        tp = PAddr(base=t, lo=-10 ** 9)
+        sb = ex.load_leaf(st, Addr, tp.ext(0).ext(0))
+        return Addr.mkaddr(Addr.aid(sb), Path.pcons(ridx, Addr.apath(sb)))
 
     def access_discipline(self, ex, st, kind, p, ins, info, fr):
         """Every access to a shared location class gets an obligation (decided per path):
